@@ -384,7 +384,7 @@ impl Display for Expr {
             Expr::Reference(ident) => write!(formatter, "{ident}"),
             Expr::Symbol(ident) => write!(formatter, ":{ident}"),
             Expr::Function(ident, param) => write!(formatter, "{ident}({param})"),
-            Expr::Index(left, right) => write!(formatter, "({left}.{right})"),
+            Expr::Index(left, right) => write!(formatter, "({}.{right})", operand(left)),
             Expr::If(check, true_case, false_case) => {
                 write!(formatter, "(if {check} then {true_case} else {false_case})")
             }
@@ -424,10 +424,12 @@ impl Display for Expr {
             Expr::LessThanEquals(left, right) => write!(formatter, "({left} <= {right})"),
             Expr::And(left, right) => write!(formatter, "({left} and {right})"),
             Expr::Or(left, right) => write!(formatter, "({left} or {right})"),
-            Expr::BitAnd(left, right) => write!(formatter, "{left} & {right}"),
-            Expr::BitOr(left, right) => write!(formatter, "{left} | {right}"),
-            Expr::BitXor(left, right) => write!(formatter, "{left} ^ {right}"),
-            Expr::Contains(left, right) => write!(formatter, "({left} contains {right})"),
+            Expr::BitAnd(left, right) => write!(formatter, "{left} & {}", operand(right)),
+            Expr::BitOr(left, right) => write!(formatter, "{left} | {}", operand(right)),
+            Expr::BitXor(left, right) => write!(formatter, "{left} ^ {}", operand(right)),
+            Expr::Contains(left, right) => {
+                write!(formatter, "({} contains {})", operand(left), operand(right))
+            }
             Expr::UpperCase(param) => write!(formatter, "uppercase({param})"),
             Expr::LowerCase(param) => write!(formatter, "lowercase({param})"),
             Expr::Trim(param) => write!(formatter, "trim({param})"),
@@ -442,6 +444,22 @@ impl Display for Expr {
             Expr::Minute(param) => write!(formatter, "minute({param})"),
             Expr::Second(param) => write!(formatter, "second({param})"),
         }
+    }
+}
+
+/// Display a sub-expression in a position that binds tighter than the
+/// sub-expression's own rendering, adding the parentheses needed to parse it
+/// back to the same tree
+fn operand(expr: &Expr) -> String {
+    match expr {
+        Expr::BitAnd(..)
+        | Expr::BitOr(..)
+        | Expr::BitXor(..)
+        | Expr::Not(_)
+        | Expr::Neg(_)
+        | Expr::Value(Value::Float(_))
+        | Expr::Value(Value::Decimal(_)) => format!("({expr})"),
+        _ => expr.to_string(),
     }
 }
 
